@@ -17,6 +17,7 @@ extern char simfs_last_cmd[512];
 int  simfs_open_fds(void);               /* descriptors opened through mkstemp and not closed */
 int  simfs_open_dirs(void);
 int  simfs_live_temp_files(void);      /* files created by mkstemp that still exist */
+void simfs_set_dir_grows(int on);      /* a file arrives in a directory between a listing and rewinddir() */
 int  simfs_live_spawn_files(void);     /* files that did not exist until a spawned command line's > redirection created them, and that still exist */
 const char *simfs_a_spawn_file(void);
 void simfs_tempfile_check_at_return(int fd);   /* oracle hook: called by workloads after spiftool_temp_file returns */
